@@ -79,6 +79,10 @@ def bounds(op, v, n):
     if op == '~':
         return unit((operator.ge, v)) + unit((operator.lt, bumped(v, 1 if n >= 2 else 0)))
     if op == '<=':
+        # Cargo: <=I.J.K-pre is an exact upper bound (a pre-release names all three components); <=I.J / <=I / <=I.J.K are the
+        # bump of the last specified component
+        if v[3] == -1:
+            return unit((operator.le, v))
         return unit((operator.lt, bumped(v, n - 1)))
     if op == '>=':
         return unit((operator.ge, v))
@@ -134,14 +138,14 @@ def split_on(s, sep):
 @REG.spec([Str], SeqOpVer)
 def classify(ver):
     """one comma-separated comparator (already stripped): two-character operators before one-character ones,
-    X.* is ~X, a bare version is a caret requirement, * constrains nothing"""
-    if ver == '*':
+    X.* (also written X.x / X.X) is ~X, a bare version is a caret requirement, * (x, X) constrains nothing"""
+    if ver == '*' or ver == 'x' or ver == 'X':
         return EMPTY
     if ver.startswith('>=') or ver.startswith('<=') or ver.startswith('!='):
         return unit((ver[0:2], lstrip(ver[2:])))
     if ver.startswith('~') or ver.startswith('=') or ver.startswith('^') or ver.startswith('>') or ver.startswith('<'):
         return unit((ver[0:1], lstrip(ver[1:])))
-    if ver.endswith('.*'):
+    if ver.endswith('.*') or ver.endswith('.x') or ver.endswith('.X'):
         return unit(('~', lstrip(ver[:-2])))
     return unit(('^', ver))
 
